@@ -12,7 +12,7 @@
    Abs/CfgRefute.v (the variant without the "committed in its own term" guard is unsafe). *)
 From Coq Require Import List NArith Lia.
 From Verif Require Import Abs.Quorum Abs.CfgQuorum Abs.CfgBase Abs.CfgRaft Abs.CfgRun
-  Abs.CfgInvAll Abs.CfgExample Abs.CfgRefute.
+  Abs.CfgInvAll Abs.CfgDurable Abs.CfgExample Abs.CfgRefute.
 Import ListNotations.
 Open Scope N_scope.
 
@@ -72,6 +72,30 @@ Proof.
   exact (leader_completeness V0 HV s' t i e u l L R' Hc' He Htu).
 Qed.
 Print Assumptions cfg_committed_survives_crash.
+
+(* durability on a majority under membership changes (C06).  A record (tc, k, M) of [cmts] is
+   filed by the leader's commit step: term, new commit index, the leader's whole log then;
+   cfg_of V0 M is the configuration in force for that leader at that moment.  In every reachable
+   state since (crashes, truncations, reconfigurations, installations included) a majority Q of
+   THAT configuration (majority D Q includes incl Q D: voters only; the leader is in Q only if it
+   is a voter) holds the committed prefix inside its durable prefix *)
+Theorem cfg_committed_durable_on_majority : forall V0, NoDup V0 -> forall s tc k M,
+  Reachable V0 s -> In (tc, k, M) (cmts s) ->
+  exists Q, majority (cfg_of V0 M) Q /\
+    forall v, In v Q ->
+      (k <= flushed (st s v))%nat /\ firstn k (log (st s v)) = firstn k M.
+Proof. exact committed_durable_on_majority. Qed.
+Print Assumptions cfg_committed_durable_on_majority.
+
+(* the same for the ghost [committed]; M is the committing leader's log at that commit *)
+Theorem cfg_committed_entry_durable : forall V0, NoDup V0 -> forall s t i e,
+  Reachable V0 s -> In (t, i, e) (committed s) ->
+  exists M Q, In (t, i, M) (cmts s) /\ nth_error M (i - 1) = Some e /\
+    majority (cfg_of V0 M) Q /\
+    forall v, In v Q ->
+      (i <= flushed (st s v))%nat /\ nth_error (log (st s v)) (i - 1) = Some e.
+Proof. exact committed_entry_durable. Qed.
+Print Assumptions cfg_committed_entry_durable.
 
 (* a concrete run, V0 = [1;2;3]: leader 1 commits a configuration adding 4 (index 2), then one
    removing itself (index 3), then a data entry under [2;3;4] without counting itself (index 4);
